@@ -8,6 +8,9 @@
 
 #define M_TASK_MAX_THREADS    16
 
+/* Three-way compare; never return a difference, as it may not fit an int */
+#define M_CMP(a, b)           (((a) > (b)) - ((a) < (b)))
+
 static void src_priv_dtor(void *data);
 static void *task_thread(void *data);
 static ev_src_t *create_src(m_mod_t *mod, m_src_types type, process_cb proc,
@@ -208,21 +211,21 @@ static int fdcmp(void *my_data, void *node_data) {
     ev_src_t *src = (ev_src_t *)node_data;
     ev_src_t *key = (ev_src_t *)my_data;
 
-    return key->fd_src.fd - src->fd_src.fd;
+    return M_CMP(key->fd_src.fd, src->fd_src.fd);
 }
 
 static int tmrcmp(void *my_data, void *node_data) {
     ev_src_t *src = (ev_src_t *)node_data;
     ev_src_t *key = (ev_src_t *)my_data;
 
-    return key->tmr_src.its.ns - src->tmr_src.its.ns;
+    return M_CMP(key->tmr_src.its.ns, src->tmr_src.its.ns);
 }
 
 static int sgncmp(void *my_data, void *node_data) {
     ev_src_t *src = (ev_src_t *)node_data;
     ev_src_t *key = (ev_src_t *)my_data;
 
-    return key->sgn_src.sgs.signo - src->sgn_src.sgs.signo;
+    return M_CMP(key->sgn_src.sgs.signo, src->sgn_src.sgs.signo);
 }
 
 static int pathcmp(void *my_data, void *node_data) {
@@ -236,25 +239,26 @@ static int pidcmp(void *my_data, void *node_data) {
     ev_src_t *src = (ev_src_t *)node_data;
     ev_src_t *key = (ev_src_t *)my_data;
 
-    return key->pid_src.pid.pid - src->pid_src.pid.pid;
+    return M_CMP(key->pid_src.pid.pid, src->pid_src.pid.pid);
 }
 
 static int taskcmp(void *my_data, void *node_data) {
     ev_src_t *src = (ev_src_t *)node_data;
     ev_src_t *key = (ev_src_t *)my_data;
 
-    return key->task_src.tid.tid - src->task_src.tid.tid;
+    return M_CMP(key->task_src.tid.tid, src->task_src.tid.tid);
 }
 
 static int threshcmp(void *my_data, void *node_data) {
     ev_src_t *src = (ev_src_t *)node_data;
     ev_src_t *key = (ev_src_t *)my_data;
 
-    long double my_val = (long double)key->thresh_src.thr.activity_freq
-                         + (long double)key->thresh_src.thr.inactive_ms;
-    long double their_val = (long double)src->thresh_src.thr.activity_freq
-                            + (long double)src->thresh_src.thr.inactive_ms;
-    return my_val - their_val;
+    /* A threshold is identified by the (inactive_ms, activity_freq) pair */
+    const int ret = M_CMP(key->thresh_src.thr.inactive_ms, src->thresh_src.thr.inactive_ms);
+    if (ret != 0) {
+        return ret;
+    }
+    return M_CMP(key->thresh_src.thr.activity_freq, src->thresh_src.thr.activity_freq);
 }
 
 static ev_src_t *process_ps(ev_src_t *this, m_ctx_t *c, int idx, evt_priv_t *evt) {
